@@ -1,0 +1,22 @@
+//go:build verif
+
+package task
+
+// Exported shim for the runtime verification harness (build tag `verif`):
+// the task manager's roster (the core's record of the tasks it owns) is an
+// unexported type; VerifRoster gives the harness the same methods the manager
+// calls, on a roster of its own. Add-only: not compiled into normal builds.
+
+// VerifRoster wraps a roster created by newRoster().
+type VerifRoster struct{ r *roster }
+
+func VerifNewRoster() *VerifRoster { return &VerifRoster{r: newRoster()} }
+
+func (v *VerifRoster) Append(t *Task)              { v.r.append(t) }
+func (v *VerifRoster) Keep(f Filter)               { v.r.keep(f) }
+func (v *VerifRoster) UpdateTasks(ts Tasks)        { v.r.updateTasks(ts) }
+func (v *VerifRoster) GetTasks() Tasks             { return v.r.getTasks() }
+func (v *VerifRoster) GetTaskIds() []string        { return v.r.getTaskIds() }
+func (v *VerifRoster) Filtered(f Filter) Tasks     { return v.r.filtered(f) }
+func (v *VerifRoster) Contains(f Filter) bool      { return v.r.contains(f) }
+func (v *VerifRoster) GetByTaskId(id string) *Task { return v.r.getByTaskId(id) }
